@@ -13,6 +13,7 @@ Ev == Tr[l]
 Act ==
     CASE Ev.op = "create"    -> Create(TRUE, Ev.out)
       [] Ev.op = "createbad" -> Create(FALSE, Ev.out)
+      [] Ev.op = "createsame" -> Create(TRUE, Ev.out)
       [] Ev.op = "genkey"    -> GenKey(Ev.out)
       [] Ev.op = "encrypt"   -> Encrypt(Ev.out)
       [] Ev.op = "upconfig"  -> UpConfig(Ev.out)
